@@ -141,6 +141,16 @@ CLAIMED['C12'] = dict(
     technique="writer-token vs reader-recogniser table composition, constant/precision rules and a type-directed float-detour lint over the clang-resolved AST",
     ref="DESIGN.md section 4, C12")
 
+CLAIMED['C05'] = dict(
+    text="Structural necessary conditions in the five basis-inverse / basis-multiply queries: the result of every scaling computation is consumed; wherever "
+         "a split on the kind of basis member applies a scale exponent the column arm uses the column exponent and the slack arm the row exponent with "
+         "opposite signs; exponents are looked up at number(baseId(E)) of the member that was tested, or at the decoded row index, never at the basis "
+         "position; the scaler object is dereferenced only under a test of the pointer itself; sparse outputs are filled within *ninds after setup(). "
+         "Eight instances fire on the unchanged tree and are reported as KNOWN-FINDING (row-representation branch of getBasisInverseColReal; null "
+         "scaler after the scaler parameter is switched off). Not a proof that the solves return the inverse.",
+    technique="discarded-result, sign/kind pairing, index-provenance and null-discipline rules over the clang-resolved AST",
+    ref="DESIGN.md section 4, C05")
+
 NA = {
     'C10': "every clause quantifies over run-time numbers (residuals at rounding level, singular vs. well-conditioned, agreement of multi-rhs solves); "
            "no structural clause is both checkable and necessary (DESIGN.md section 5)",
